@@ -131,10 +131,18 @@ def make_app(kind, services_only=False):
         @rpc(Unicode, _returns=Unicode, _port_type='PortX')
         def ported(ctx, s):
             return s[::-1]
-    services = {'small': [S1], 'multi': [S1, S2], 'ports': [S1, S2, S3], 'multi_reversed': [S2, S1]}[kind]
+    services = {'small': [S1], 'multi': [S1, S2], 'ports': [S1, S2, S3], 'multi_reversed': [S2, S1],
+                'other_xsd_prefix': [S1, S2]}[kind]
     if services_only:
         return services, ns[0]
-    return Application(services, ns[0], name='GenApp', in_protocol=Soap11(), out_protocol=Soap11())
+    app = Application(services, ns[0], name='GenApp', in_protocol=Soap11(), out_protocol=Soap11())
+    if kind == 'other_xsd_prefix':
+        # an application may bind the XML Schema namespace to another prefix than the library's default
+        itf = app.interface
+        del itf.nsmap['xs']
+        itf.nsmap['xsd'] = XSD
+        itf.prefmap[XSD] = 'xsd'
+    return app
 
 
 def _q(elt, value):
@@ -309,7 +317,7 @@ def _mk_closure(kind):
     return ob
 
 
-for _k in ('small', 'multi', 'ports', 'multi_reversed'):
+for _k in ('small', 'multi', 'ports', 'multi_reversed', 'other_xsd_prefix'):
     _mk_closure(_k)
 
 
@@ -432,7 +440,7 @@ def _calls(kind):
         ('one', dict(a=a), None, dict(a=a, when=WHEN), None),
         ('two', dict(c=c_, d=d_), None, dict(twoResult0=dict(x=9, colour='blue'), twoResult1=b), None),
     ]
-    if kind in ('multi', 'ports', 'multi_reversed'):
+    if kind in ('multi', 'ports', 'multi_reversed', 'other_xsd_prefix'):
         calls += [
             ('Renamed', dict(i=41), hdrs, 42, dict(Hdr1=dict(t='re:tok'), Hdr2=dict(u='re:usr'))),
             ('bare', a, hdrs, a, None),
@@ -597,7 +605,7 @@ def _mk_client(kind):
     return ob
 
 
-for _k in ('small', 'ports'):
+for _k in ('small', 'ports', 'other_xsd_prefix'):
     _mk_client(_k)
 
 
